@@ -1,7 +1,8 @@
 use crate::runner::PropertyDef;
 
 pub mod c01;
+pub mod c02;
 
 pub fn all() -> Vec<(&'static str, fn() -> PropertyDef)> {
-    vec![("C01", c01::def as fn() -> PropertyDef)]
+    vec![("C01", c01::def as fn() -> PropertyDef), ("C02", c02::def)]
 }
